@@ -25,7 +25,8 @@ class C08(PropBase):
         params = {}
         if rng.random() < 0.3:
             params['tx_data_length'] = rng.choice([8, 12, 64])
-        ovr = rng.choice([None, None, None, 0, 0.0005, 0.003, 0.05])
+        # (values above 127 ms too: an override is not limited to what an STmin byte can express)
+        ovr = rng.choice([None, None, None, None, 0, 0.0005, 0.003, 0.05, 0.128, 0.2, 0.5, 2])
         if ovr is not None:
             params['override_receiver_stmin'] = ovr
         ops = [{'op': 'layer', 'i': 0, 'addr': a, 'params': params}]
